@@ -163,9 +163,9 @@ type caseState struct {
 	nviol int64
 
 	callsOK, callsFailed, pushesSent, pushesOK, rawPushes, acceptAsked, bare, emptyReplies, idleTicks, beats, accessorFans int64
-	failSamples                                                                                              []string
-	pushSeen                                                                                                 sync.Map
-	pushRecv                                                                                                 int64
+	failSamples                                                                                                            []string
+	pushSeen                                                                                                               sync.Map
+	pushRecv                                                                                                               int64
 }
 
 func (cs *caseState) report(symptom, kind, detail string) {
